@@ -13,7 +13,8 @@ ENGINES = {
         model='coq/Model/Recovery.v (+ Model/Tracker.v, Model/Offsets.v, Model/Bucket.v)',
         rule='cases from harness/e4 Gen: scenario cases (1-4 partitions, one request each: empty/single/small/large windows, from on/off the '
              'progress grid, maxrec trimming; requests before or after the assignment; fresh records pumped in interleaved chunks with '
-             'stale records, refreshes, truncation errors with lows below/at/inside/at the end of/above the window, revocations and crashes '
+             'stale records below and stragglers ahead of the client position (also right after a refresh caused by a late request of another '
+             'partition), refreshes, truncation errors with lows below/at/inside/at the end of/above the window, revocations and crashes '
              'at any point) and chaos cases (arbitrary op sequences incl. raw records, foreign snapshots, cancel-all, main assignments); '
              'a case is non-trivial when the model run hit a branch tag >= 10; distinct = distinct input trees',
         tags={'1': 'nothing recovered', '2': 'no watched request (coverage clauses vacuous)', '3': 'timing case',
@@ -21,10 +22,12 @@ ENGINES = {
               '13': 'truncation closed a request', '14': 'crash while a request is outstanding',
               '15': 'coverage judged on a completed request', '16': 'coverage judged on an outstanding request that progressed',
               '17': 'a refresh re-assigned the client', '18': 'a record emitted twice', '19': 'timing case with n > burst',
-              '20': 'several partitions active at once', '21': 'main and recovery events in one case'},
+              '20': 'several partitions active at once', '21': 'main and recovery events in one case', '22': 'straggler ahead of the client position emitted'},
         trusted_base=_TB,
-        assumptions=['the recovery client is an oracle: after Assign (p,a) it delivers a, a+1, ... in order; stale records carry offsets below its '
-                     'position (Stale op); arbitrary records (RawRec) only in the safety clauses',
+        assumptions=['the recovery client is an oracle: after Assign (p,a) it delivers a, a+1, ... in order; stale records are either below its '
+                     'position (Stale op) or stragglers of the previous assignment AHEAD of it (Ahead op: inside the active window and not a multiple of '
+                     'updateRequestEvery - a straggler on the broadcast grid or beyond to makes the current code broadcast progress / close the request '
+                     'ahead of what was recovered); arbitrary records (RawRec) only in the safety clauses',
                      'updateRequestEvery (5*rate records) is overridden through SetUpdateEveryV so that progress broadcasts happen within small cases',
                      'processError: a failing watermark query is generated only as "every query of this call fails" (with several active partitions a '
                      'single failing query makes the processed subset depend on Go map order); map iterations are canonicalised by partition',
@@ -53,7 +56,8 @@ PROPS = {
                                'model-agreeing implementation observations; a clause failure without model/implementation difference would show up as a '
                                'false alarm, none in >100k cases.  Tied by the differential run only (generator-bounded: <=4 recovering partitions, windows '
                                '<=200, <=~60 ops): that Model/Recovery.v is the Go code.  The recovery client is an oracle (fresh records in order after '
-                               'Assign, stale records below its position); coverage theorem excludes arbitrary records / second requests / cancel-all on '
+                               'Assign, stale records below its position, stragglers ahead of it inside the window and off the broadcast grid); spec guard '
+                               '(watched) = hypothesis of C07_cover_partial (ok_op) from the op after the one Request of the partition onwards; coverage theorem excludes arbitrary records / second requests / cancel-all on '
                                'the watched partition.  processError with a watermark error on one of several partitions (Go map order) is not generated.',
                     technique=_M, design_ref='DESIGN.md section 8, E4')),
     'C09': dict(engine='e4', n=dict(quick=6000, thorough=150000), components=[1, 2, 3, 4, 6, 7, 8, 9, 11],
